@@ -34,8 +34,7 @@ def gen_history(rng, tier):
     cfg = g.Cfg(cap=cap, crit=crit, naming=naming, crlf=rng.random() < 0.2,
                 base=rng.choice([b"a", b"app", b"my.prog", b""]), disc=rng.choice([None, None, b"d1", b"x_y"]),
                 sfx=rng.choice([b"log", b"log", b"log", b"trc"]), append=rng.random() < 0.2)
-    if not cfg.fixed():
-        cfg.base = b"a"
+    # (an empty fixed name part - no basename, no discriminant - is a legal configuration: the files are r00000.log ...)
     ops = ["B:" + cfg.token()]
     n = rng.randint(0, 8 if tier == "quick" else 16)
     for i in range(n):
